@@ -70,6 +70,35 @@ def observe(db, odb):
     return None
 
 
+def shared_containers(live):
+    """(id1, id2, what) for the first container two live databases share, else None"""
+    import numpy as np
+    ids = sorted(live)
+    for a in range(len(ids)):
+        for b in range(a + 1, len(ids)):
+            x, y = live[ids[a]], live[ids[b]]
+            if x is y:
+                continue
+            if x.array is not None and y.array is not None:
+                for part in ("data", "indices", "indptr"):
+                    u, v = getattr(x.array, part), getattr(y.array, part)
+                    if u.size and v.size and np.shares_memory(u, v):
+                        return ids[a], ids[b], part
+            if x.fp_names is y.fp_names and x.fp_names is not None:
+                return ids[a], ids[b], "fp_names list"
+            if x.fp_names_to_indices is y.fp_names_to_indices:
+                return ids[a], ids[b], "name index"
+            lists = {id(v) for v in x.fp_names_to_indices.values() if isinstance(v, list)}
+            if any(id(v) in lists for v in y.fp_names_to_indices.values() if isinstance(v, list)):
+                return ids[a], ids[b], "name index row list"
+            if x.props is y.props:
+                return ids[a], ids[b], "props dict"
+            # (the column arrays inside `props` are handed on by reference - np.asanyarray - also from the caller's own arrays; no
+            #  operation of the library writes into a column in place, so that sharing is not observable through the library and
+            #  is not claimed, like caller-supplied mutable values stored in a fingerprint's props)
+    return None
+
+
 class C05(vlib.Check):
     id = "C05"
     props_modules = ["E3fpVerif.Props.C05", "E3fpVerif.Props.C05Hist"]
@@ -297,20 +326,16 @@ class C05(vlib.Check):
                         if not same:
                             return {"key": "read-changes-equality:%s" % o,
                                     "what": "%s: after read-only %s the database no longer equals its copy" % (where, o), "step": k}
-            # a derived database is an independent snapshot: it shares no matrix buffer with its source(s) (SciPy
-            # canonicalises CSR matrices in place - sort_indices, sum_duplicates - so a shared buffer is observable)
-            if o in ("subset", "as_type", "copy", "fold", "concat", "pickle", "savez") and op.get("out") in run.live:
-                import numpy as np
-                out = run.live[op["out"]]
-                for j in src_ids:
-                    if j == op.get("out") or run.live[j].array is None or out.array is None:
-                        continue
-                    for part in ("data", "indices", "indptr"):
-                        x, y = getattr(out.array, part), getattr(run.live[j].array, part)
-                        if x.size and y.size and np.shares_memory(x, y):
-                            return {"key": "derived-shares-buffer:%s:%s" % (o, part),
-                                    "what": "%s: the database derived by %s shares its matrix %s buffer with the source %s" % (where, o, part, j),
-                                    "step": k}
+            # databases are independent snapshots of one another: after every step no two live databases share a container -
+            # matrix buffers (SciPy canonicalises CSR matrices in place, so a shared buffer is observable), the names list, the
+            # name index or any of the row lists inside it, the property dictionary or any column array
+            sh = shared_containers(run.live)
+            if sh is not None:
+                j1, j2, part = sh
+                derived = o in ("subset", "as_type", "copy", "fold", "concat", "pickle", "savez") and op.get("out") in (j1, j2)
+                return {"key": ("derived-shares-buffer:%s:%s" % (o, part)) if derived and part in ("data", "indices", "indptr")
+                        else "databases-share-state:%s:%s" % (o, part),
+                        "what": "%s: databases %s and %s share their %s" % (where, j1, j2, part), "step": k}
             # every live database still holds what was put in
             for j, odb in olive.items():
                 if j not in run.live:
